@@ -1162,10 +1162,16 @@ def classify_expr(node, parent="root"):
         if isinstance(n, ast.expr) and not hasattr(AU.SourceGenerator, "visit_" + type(n).__name__):
             return "sourcegen-missing-visit_" + type(n).__name__, {}
     for n in ast.walk(node):
-        if isinstance(n, ast.Lambda):
-            if n.args.kwonlyargs:
+        if isinstance(n, ast.Lambda) and (n.args.kwonlyargs or n.args.posonlyargs):
+            # only when the parameters really get lost: the same lambda with a trivial body is re-emitted wrongly
+            probe = ast.fix_missing_locations(ast.Lambda(args=n.args, body=ast.Constant(value=0)))
+            try:
+                lost = not reemit_ok(ast.parse(ast.unparse(probe), mode="eval").body)[0]
+            except Exception:
+                lost = True
+            if lost and n.args.kwonlyargs:
                 return "sourcegen-lambda-params-dropped", {"kind": "kwonly"}
-            if n.args.posonlyargs:
+            if lost and n.args.posonlyargs:
                 return "sourcegen-lambda-params-dropped", {"kind": "posonly"}
         if isinstance(n, ast.comprehension) and n.is_async:
             return "sourcegen-async-comprehension", {}
@@ -1527,6 +1533,9 @@ TEMPLATE_SLOTS = {
 }
 
 
+LAST_TEMPLATE_ERROR = [""]
+
+
 def template_eval(slot, src, strict=False):
     """value of `src` placed in a real template slot: ('ok', text) | ('exc', class)"""
     from mako.template import Template
@@ -1549,6 +1558,7 @@ def template_eval(slot, src, strict=False):
     except RecursionError:
         raise
     except Exception as e:
+        LAST_TEMPLATE_ERROR[0] = "%s: %s" % (type(e).__name__, e)
         return ("exc", type(e).__name__)
 
 
@@ -1588,7 +1598,9 @@ def oracle_template_values(ctx, n):
         small = shrink_expr(node, fails, 120)
         ssrc = ast.unparse(small)
         if reemit_ok(small)[0]:
-            if template_eval(slot, ssrc) == ("exc", "UnboundLocalError"):
+            r_ = template_eval(slot, ssrc)
+            if r_ == ("exc", "UnboundLocalError") or (r_ == ("exc", "NameError") and
+                                                     "cannot access free variable" in LAST_TEMPLATE_ERROR[0]):
                 # the def's stub `def fn(p=EXPR)` is written before `name = context.get(...)` (set iteration order)
                 site, where = "def-default-evaluated-before-name-is-fetched", {"slot": slot}
             else:
@@ -2128,8 +2140,10 @@ def name_roles(tree, name):
 
 
 ROLE_PRIORITY = {
-    "extra": ["param-vararg", "param-kwonly", "param-kwarg", "param-posonly", "del-target", "walrus-in-unvisited-part",
-              "stored-in-nested-function"],
+    # (the parameter roles come last: since a807210 parameters are handled, so when another explanation applies to the
+    # same name it is the cause; a regression of the parameter handling still shows on names that are parameters only)
+    "extra": ["del-target", "walrus-in-unvisited-part", "stored-in-nested-function",
+              "param-vararg", "param-kwonly", "param-kwarg", "param-posonly"],
     "missing": ["read-in-parameter-default", "read-in-decorator", "read-in-class-header", "occurs-in-class-body",
                 "read-in-comprehension-inside-function", "comprehension-target-in-function", "comprehension-target"],
     "declared-extra": ["comprehension-target"],
